@@ -36,7 +36,7 @@ func genBloomTasks(r *rand.Rand, p *ProbPlan, seed uint64, heavy, destructive bo
 	added, never := probItems(seed, nitems)
 	ntasks, maxCalls, maxMulti := 2+r.IntN(4), 6, 4
 	if heavy {
-		ntasks, maxCalls, maxMulti = 2+r.IntN(2), 3, 2
+		ntasks, maxCalls, maxMulti = 2, 2, 2
 	}
 	for ti := 0; ti < ntasks; ti++ {
 		var calls []ProbCall
@@ -121,15 +121,14 @@ func execBloom(t *testing.T, plan any, out *Outcome) {
 		return runBloomCall(ctx, pr.bf[c.Cl], c)
 	})
 	pr.finishProb()
-	pr.checkPresence("C35", nil)
+	pr.checkPresence("C35", "false-negative", nil)
 	pr.checkCount()
 }
 
 // checkPresence judges every Exists / ExistsMulti answer about an item whose successful add preceded the query.
 // inTime, when set, is an additional precondition on the (add, query) pair (the sliding filter's half window).
-func (pr *probRun) checkPresence(prop string, inTime func(add, query *probCall) bool) {
+func (pr *probRun) checkPresence(prop, rule string, inTime func(add, query *probCall) bool) {
 	out := pr.out
-	rule := "false-negative"
 	if pr.k == 0 {
 		// same verdict, separate rule name: a filter that uses no hash function at all answers "absent" to everything
 		rule = "false-negative-no-hash-functions"
